@@ -248,10 +248,13 @@ theorem init_inv (E : Env σ) (root : σ) (hr : E.good root) : Inv E (init root)
     | j+1, hj => simp at hj
   · intro i done heq; cases heq
 
-/-- expansion with the stable-motif limit of `_expand_one_node`: the error leaves the diagram untouched -/
+/-- expansion with the stable-motif limit of `_expand_one_node`: the solver is asked for at most
+    `max 1 limit` motifs and the error is raised when that many come back (so a shorter answer is
+    complete); the error leaves the diagram untouched -/
 def expandOneLimited (E : Env σ) (limit : Nat) (s : SD σ) (i : Nat) : SD σ × Bool :=
   match s.nodes[i]?, s.exp[i]? with
-  | some p, some false => if (E.maxT p).length == limit then (s, false) else (expandOne E s i, true)
+  | some p, some false =>
+    if decide ((E.maxT p).length ≥ max 1 limit) then (s, false) else (expandOne E s i, true)
   | _, _ => (s, true)
 
 theorem expandOneLimited_inv (E : Env σ) (limit : Nat) (s : SD σ) (i : Nat) (h : Inv E s none) :
